@@ -363,13 +363,17 @@ func vC06Director(t *testing.T, out *vEmitter, r *rand.Rand) {
 func vC06EndToEnd(t *testing.T, out *vEmitter) {
 	targets := []string{"/app/page?x=1&y=two", "/a%20b/c%2Fd?q=%3D", "//evil.com", "/\\evil.com", "/\t/evil.com", "https://evil.com/", "https://a.example/ok", "https://a.example@evil.com/",
 		"https://evila.example/", "/..//evil.com", "/ok#frag", "http://a.example:8443/x", "https://sub.a.example/", "/x/./y",
-		"http:///evil.com/x", "https:////evil.com", "/oauth2x/page?y=1", "/reports?from=08:00"}
+		"http:///evil.com/x", "https:////evil.com", "/oauth2x/page?y=1", "/reports?from=08:00",
+		// hosts that share the COOKIE domain with the proxy without being on the whitelist: cookie scope is not redirect permission
+		"https://user-content.example.com/phish", "https://example.com/", "//x.example.com/p", "https://app.example.com.evil.test/"}
 	htp := vWriteFile("c06-htpasswd", "htuser:{SHA}"+vB64Std(vSHA1([]byte("htpass")))+"\n")
-	for _, enc := range []bool{false, true} {
+	for ci, enc := range []bool{false, true, false} {
+		cookieDomains := [][]string{nil, nil, {".example.com", "example.com"}}[ci]
 		e := vNewEnv(t, vEnvCfg{oidc: true, mod: func(o *options.Options) {
 			o.WhitelistDomains = []string{".a.example", ""} // (with the empty entry a trailing comma in the option leaves)
 			o.EncodeState = enc
 			o.HtpasswdFile = htp
+			o.Cookie.Domains = cookieDomains
 		}})
 		var locs []string
 		var labels []string
@@ -432,7 +436,7 @@ func vC06EndToEnd(t *testing.T, out *vEmitter) {
 				same := n.Hostname == "app.example.com" && n.Port == "" && n.Protocol == "https:"
 				if !same && !vRefAllowed([]string{".a.example"}, n.Protocol, n.Hostname, n.Port) {
 					out.Violation("redirect/leaves-allowed-origins", "a redirect issued by the proxy resolves in a browser to a host that is neither the request host nor whitelisted",
-						map[string]interface{}{"flow": labels[i], "location": locs[i], "lands_on": n.Protocol + "//" + n.Hostname + ":" + n.Port})
+						map[string]interface{}{"flow": labels[i], "location": locs[i], "lands_on": n.Protocol + "//" + n.Hostname + ":" + n.Port, "cookie_domains": cookieDomains})
 				}
 			}
 		} else {
